@@ -261,12 +261,16 @@ PROPS["C02"] = dict(
     level_note=_BUF_NOTE + " The Range theorems are about the interleaving-free composite; interleavings with the cleaner are explored by the checker only.",
     stages=[corr_stage("BUFK1", 4000, 8000, feature=feat_buf("C02"), seeds=3, params={"salt": 2})],
 )
+def c04_trace_params(exe):
+    return {"ptfile": os.path.join(os.path.dirname(exe), "instr", "points.txt")}
+
 PROPS["C04"] = dict(
     pre_coq=[lambda: c03_pre_coq()],   # the fixed/default cleaner clauses are about the functions translated from the current source
     rule="C04T: 14 timed scenarios (one / two consumers, closing the slowest with and without an already reclaimed prefix, consumers parked at the tail, cooldown 0, a cooldown reconfigured inside a window, FixedBufferCleaner with and without consumers incl. target == max, a short prefix committed and the size pushed over max inside ONE window, everything consumed under the fixed cleaner (known finding F6), sustained traffic by a consumer that keeps up: something must be reclaimed during the traffic) on an INSTRUMENTED build; each "
          "is run plain and then once per (synchronisation point hit by the scenario, k-th hit <= 3) with a delay of 2.5 cooldowns injected there "
          "(delay-bounded schedule sweep); after going quiet for 2 cooldowns + slack the settled Size/Slice must be what the model gives after the "
-         "cleaner ran. non-trivial = a sweep run whose delay fired; distinct by (scenario, point, hit)",
+         "cleaner ran. non-trivial = a sweep run whose delay fired; distinct by (scenario, point, hit)"
+         " C04TRACE: trace acceptance - the synchronisation points executed by the cleaner goroutine and the cooldown-timer goroutines of a Buffer in use, and every external Broadcast, are logged in order on an instrumented build; the log must be a run of the extracted CleanerProto.step and end in a state from which the model can be terminal.",
     level_text="Theorems (Properties/C04.v) on the cleaner/timer wake-up protocol at lock-operation granularity with a notify-list condition variable: "
                "every reachable terminal state is clean (any number of changes, cooldown 0 or >0, every schedule), every run terminates, at most two "
                "timer firings after the last change; the pre-fix protocol is refuted (F3, fixed by 989b0cf). Tie: timed scenarios with a delay-bounded "
@@ -275,7 +279,9 @@ PROPS["C04"] = dict(
     level_note="Wall-clock bound is proved as a step bound (timer firings) and measured with generous slack, not proved in real time. Trusted: the "
                "hand-written protocol model (no automatic tie between CleanerProto.v and buffer.go other than the sweep), sync.Cond notify-list semantics, "
                "instrumenter inserts calls only.",
-    stages=[corr_stage("C04T", 2, 6, feature=lambda tok: tok[2] if (tok[0] == "K2" and "-p" in tok[2]) else None, instrument=True, shards=12,
+    stages=[corr_stage("C04TRACE", 150, 1500, params=c04_trace_params, instrument=True,
+                       feature=lambda tok: " ".join(tok[3:40]) if tok[0] == "F" else None),
+            corr_stage("C04T", 2, 6, feature=lambda tok: tok[2] if (tok[0] == "K2" and "-p" in tok[2]) else None, instrument=True, shards=12,
                        params={"points": 12}, tparams={"points": 1000}, timeout=1200)],
 )
 def c05_trace_params(exe):
